@@ -446,6 +446,13 @@ func genWarrior(r *rand.Rand, m int, hostile bool) wdata {
 func genCfg(r *rand.Rand, ms []int) simCfg {
 	m := ms[r.Intn(len(ms))]
 	rl, wl := genLimits(r, m)
+	// limits above the core size are accepted configurations too (no limit): up to four times the core size and beyond
+	if r.Intn(8) == 0 {
+		rl = m + 1 + r.Intn(4*m)
+	}
+	if r.Intn(8) == 0 {
+		wl = []int{m + 1, 2 * m, 2*m + 1, 3 * m, 4*m - 1, 4 * m, 1 << 20}[r.Intn(7)]
+	}
 	c := 1 + r.Intn(60)
 	if r.Intn(8) == 0 {
 		c = 1 + r.Intn(3)
